@@ -160,14 +160,24 @@ ALPH = "ABCDEFGHIJKLMNOPQRSTUVWXYZ0123456789"
 HIGH = "\u00e4\u00f6\u00e9\u00df\u03a9\u4e2d"
 
 
-def _gen_map(rnd, n):
+STYLES = ("iata", "mixed", "prefixy", "long", "highbit", "longzone", "bigpool", "vlong")
+
+
+def _gen_map(rnd, n, style=None):
     keys = set()
-    style = rnd.choice(("iata", "mixed", "prefixy", "long", "highbit"))
+    style = style or rnd.choice(STYLES)
+    if style == "bigpool":
+        # distinct zone names of 48 bytes: 1300 stay below the 64 KiB an offset can address,
+        # 1600 exceed them and must be refused, not compiled into a map that answers wrongly
+        n = rnd.choice((1300, 1360, 1600))
     while len(keys) < n:
         if style == "iata":
             k = "".join(rnd.choice(ALPH[:26]) for _ in range(3))
         elif style == "long":
             k = "".join(rnd.choice(ALPH) for _ in range(rnd.randrange(1, 41)))
+        elif style == "vlong":
+            # `tzmap check` documents 255 bytes as the longest key, the compiler skips longer ones
+            k = "".join(rnd.choice(ALPH) for _ in range(rnd.choice((1, 3, 60, 130, 250, 255))))
         elif style == "prefixy" and keys and rnd.random() < 0.6:
             b = rnd.choice(sorted(keys))
             r = rnd.random()
@@ -184,7 +194,14 @@ def _gen_map(rnd, n):
             k = "".join(rnd.choice(ALPH) for _ in range(rnd.choice((1, 2, 3, 4, 4, 5, 7, 8, 12))))
         if k:
             keys.add(k)
-    src = [(k, rnd.choice(ZONEPOOL)) for k in sorted(keys)]
+    if style == "longzone":
+        # zone names are not looked up by the compiler; very long ones must still fit its pool
+        zp = ["Z/" + "".join(rnd.choice(ALPH) for _ in range(rnd.choice((70, 300, 900)))) for _ in range(3)] + ZONEPOOL[:3]
+        src = [(k, rnd.choice(zp)) for k in sorted(keys)]
+    elif style == "bigpool":
+        src = [(k, "Zone/%05d/%s" % (i, "x" * 36)) for i, k in enumerate(sorted(keys))]
+    else:
+        src = [(k, rnd.choice(ZONEPOOL)) for k in sorted(keys)]
     return src, style
 
 
@@ -212,11 +229,14 @@ def mapfid(ctx, shard, nshards):
     try:
         for it in range(8 if not ctx.thorough else 400):
             n = rnd.choice((1, 2, 3, 5, 17, 64, 150, 300))
-            src, style = _gen_map(rnd, n)
+            src, style = _gen_map(rnd, n, STYLES[(it + shard) % len(STYLES)])
             name = "m%d" % it
             out = _compile_map(ctx, src, d, name)
             if out is None:
-                V.add("map:compile", {"src": src, "kind": "map"}, expected="tzmap cc succeeds", actual="failed")
+                if style == "bigpool" and len(src) * 48 > 65000:
+                    sub.cls("bigpool refused by tzmap cc")
+                    continue
+                V.add("map:compile", {"src": src[:50], "kind": "map"}, expected="tzmap cc succeeds", actual="failed")
                 continue
             keys = [k for k, _ in src]
             present = set(keys)
